@@ -16,6 +16,7 @@
 EXTENDS TodoRef, Json
 
 CONSTANTS MaxLen,        \* max number of cells of the text
+          Starts,        \* set of initial texts (<<>>, or a comment opener to reach longer comment texts)
           Alphabet,      \* cells to build texts from
           Files,         \* set of [name, ext]: the file
           FilterLists,   \* set of filter lists
@@ -40,6 +41,9 @@ AlphaBase == {"/", "*", "#", "\"", "'", "\\", "`", "TODO", "ab", " ", ":", "(", 
 AlphaWide == AlphaBase \cup {"fixmeS", "\t", "x"}
 AlphaComment == {"/", "*", "#", "TODO", "FixMe", "todos", "ab", " ", "\t", ":", "(", ")", "\n"}
 
+StartsNone == {<<>>}
+StartsComment == {<<"/", "/">>, <<"#">>, <<"/", "*">>, <<"/", "*", "*">>, <<"\n", "#", " ">>}
+
 FilesQuick == {[name |-> "a", ext |-> ".java"], [name |-> "a.java", ext |-> ".txt"]}
 FiltersQuick == {<<".py", ".java">>}
 FilesWide == {[name |-> "a", ext |-> ".java"], [name |-> "a.java", ext |-> ".txt"], [name |-> "b", ext |-> ".javax"], [name |-> "b", ext |-> ".py"]}
@@ -50,7 +54,7 @@ HasSuffix(p, e) == Len(p) >= Len(e) /\ SubSeq(p, Len(p) - Len(e) + 1, Len(p)) = 
 
 Init ==
   /\ file \in Files /\ filters \in FilterLists
-  /\ src = <<>> /\ eof = FALSE
+  /\ src \in Starts /\ eof = FALSE
   /\ phase = "filter" /\ fi = 1
   /\ pos = 1 /\ line = 1 /\ mode = "code" /\ tokStart = 0 /\ tokLine = 0
   /\ tokens = <<>> /\ ti = 0 /\ todos = <<>> /\ panic = FALSE
